@@ -10,7 +10,7 @@ package endpointf
 
 //@ func (*EndpointF).ResetDefault
 //@   requires st != nil
-//@   modifies *st
+//@   pure
 //@   safety [C05]
 //
 //@ func (*EndpointF).ReadFrom
@@ -21,6 +21,64 @@ package endpointf
 //@   allocates
 //@   ensures [C05] readBuf.buf.i >= p0
 //@   ensures [C05] validR(readBuf)
+//@   let src = readBuf.buf.src
+//@   let d0 = readBuf.depth
+//@   let q0 = readBuf.buf.i
+//@   let k1 = decStrK(src, q0, 0, true, d0)
+//@   let q1 = (k1 == 0 ? decStrP(src, q0, 0, d0) : seekP(src, q0, 0, d0))
+//@   let ok1 = (k1 == 0 || (k1 == 1 && (seekK(src, q0, 0, d0) == 2 || (seekK(src, q0, 0, d0) == 1 && seekCanon(src, q0, 0, d0)))))
+//@   let k2 = decIntK(src, q1, 1, true, 4, d0)
+//@   let q2 = (k2 == 0 ? decIntP(src, q1, 1, d0) : seekP(src, q1, 1, d0))
+//@   let ok2 = ok1 && (k2 == 0 || (k2 == 1 && (seekK(src, q1, 1, d0) == 2 || (seekK(src, q1, 1, d0) == 1 && seekCanon(src, q1, 1, d0)))))
+//@   let k3 = decIntK(src, q2, 2, true, 4, d0)
+//@   let q3 = (k3 == 0 ? decIntP(src, q2, 2, d0) : seekP(src, q2, 2, d0))
+//@   let ok3 = ok2 && (k3 == 0 || (k3 == 1 && (seekK(src, q2, 2, d0) == 2 || (seekK(src, q2, 2, d0) == 1 && seekCanon(src, q2, 2, d0)))))
+//@   let k4 = decIntK(src, q3, 3, true, 4, d0)
+//@   let q4 = (k4 == 0 ? decIntP(src, q3, 3, d0) : seekP(src, q3, 3, d0))
+//@   let ok4 = ok3 && (k4 == 0 || (k4 == 1 && (seekK(src, q3, 3, d0) == 2 || (seekK(src, q3, 3, d0) == 1 && seekCanon(src, q3, 3, d0)))))
+//@   let k5 = decIntK(src, q4, 4, true, 4, d0)
+//@   let q5 = (k5 == 0 ? decIntP(src, q4, 4, d0) : seekP(src, q4, 4, d0))
+//@   let ok5 = ok4 && (k5 == 0 || (k5 == 1 && (seekK(src, q4, 4, d0) == 2 || (seekK(src, q4, 4, d0) == 1 && seekCanon(src, q4, 4, d0)))))
+//@   let k6 = decIntK(src, q5, 5, false, 4, d0)
+//@   let q6 = (k6 == 0 ? decIntP(src, q5, 5, d0) : seekP(src, q5, 5, d0))
+//@   let ok6 = ok5 && (k6 == 0 || (k6 == 1 && (seekK(src, q5, 5, d0) == 2 || (seekK(src, q5, 5, d0) == 1 && seekCanon(src, q5, 5, d0)))))
+//@   let k7 = decIntK(src, q6, 6, false, 4, d0)
+//@   let q7 = (k7 == 0 ? decIntP(src, q6, 6, d0) : seekP(src, q6, 6, d0))
+//@   let ok7 = ok6 && (k7 == 0 || (k7 == 1 && (seekK(src, q6, 6, d0) == 2 || (seekK(src, q6, 6, d0) == 1 && seekCanon(src, q6, 6, d0)))))
+//@   let k8 = decStrK(src, q7, 7, false, d0)
+//@   let q8 = (k8 == 0 ? decStrP(src, q7, 7, d0) : seekP(src, q7, 7, d0))
+//@   let ok8 = ok7 && (k8 == 0 || (k8 == 1 && (seekK(src, q7, 7, d0) == 2 || (seekK(src, q7, 7, d0) == 1 && seekCanon(src, q7, 7, d0)))))
+//@   let k9 = decIntK(src, q8, 8, false, 4, d0)
+//@   let q9 = (k9 == 0 ? decIntP(src, q8, 8, d0) : seekP(src, q8, 8, d0))
+//@   let ok9 = ok8 && (k9 == 0 || (k9 == 1 && (seekK(src, q8, 8, d0) == 2 || (seekK(src, q8, 8, d0) == 1 && seekCanon(src, q8, 8, d0)))))
+//@   let k10 = decIntK(src, q9, 9, false, 4, d0)
+//@   let q10 = (k10 == 0 ? decIntP(src, q9, 9, d0) : seekP(src, q9, 9, d0))
+//@   let ok10 = ok9 && (k10 == 0 || (k10 == 1 && (seekK(src, q9, 9, d0) == 2 || (seekK(src, q9, 9, d0) == 1 && seekCanon(src, q9, 9, d0)))))
+//@   let k11 = decIntK(src, q10, 11, false, 4, d0)
+//@   let q11 = (k11 == 0 ? decIntP(src, q10, 11, d0) : seekP(src, q10, 11, d0))
+//@   let ok11 = ok10 && (k11 == 0 || (k11 == 1 && (seekK(src, q10, 11, d0) == 2 || (seekK(src, q10, 11, d0) == 1 && seekCanon(src, q10, 11, d0)))))
+//@   let k12 = decIntK(src, q11, 12, false, 4, d0)
+//@   let q12 = (k12 == 0 ? decIntP(src, q11, 12, d0) : seekP(src, q11, 12, d0))
+//@   let ok12 = ok11 && (k12 == 0 || (k12 == 1 && (seekK(src, q11, 12, d0) == 2 || (seekK(src, q11, 12, d0) == 1 && seekCanon(src, q11, 12, d0)))))
+//@   let k13 = decIntK(src, q12, 13, false, 4, d0)
+//@   let q13 = (k13 == 0 ? decIntP(src, q12, 13, d0) : seekP(src, q12, 13, d0))
+//@   let ok13 = ok12 && (k13 == 0 || (k13 == 1 && (seekK(src, q12, 13, d0) == 2 || (seekK(src, q12, 13, d0) == 1 && seekCanon(src, q12, 13, d0)))))
+//@   opaque [C04] *
+//@   perreturn
+//@   ensures [C04] (ok1 && err == nil) ==> st.Host == (k1 == 0 ? decStrV(src, q0, 0, d0) : old(st.Host))
+//@   ensures [C04] (ok2 && err == nil) ==> st.Port == (k2 == 0 ? decIntV(src, q1, 1, d0) : old(st.Port))
+//@   ensures [C04] (ok3 && err == nil) ==> st.Timeout == (k3 == 0 ? decIntV(src, q2, 2, d0) : old(st.Timeout))
+//@   ensures [C04] (ok4 && err == nil) ==> st.Istcp == (k4 == 0 ? decIntV(src, q3, 3, d0) : old(st.Istcp))
+//@   ensures [C04] (ok5 && err == nil) ==> st.Grid == (k5 == 0 ? decIntV(src, q4, 4, d0) : old(st.Grid))
+//@   ensures [C04] (ok6 && err == nil) ==> st.Groupworkid == (k6 == 0 ? decIntV(src, q5, 5, d0) : old(st.Groupworkid))
+//@   ensures [C04] (ok7 && err == nil) ==> st.Grouprealid == (k7 == 0 ? decIntV(src, q6, 6, d0) : old(st.Grouprealid))
+//@   ensures [C04] (ok8 && err == nil) ==> st.SetId == (k8 == 0 ? decStrV(src, q7, 7, d0) : old(st.SetId))
+//@   ensures [C04] (ok9 && err == nil) ==> st.Qos == (k9 == 0 ? decIntV(src, q8, 8, d0) : old(st.Qos))
+//@   ensures [C04] (ok10 && err == nil) ==> st.BakFlag == (k10 == 0 ? decIntV(src, q9, 9, d0) : old(st.BakFlag))
+//@   ensures [C04] (ok11 && err == nil) ==> st.Weight == (k11 == 0 ? decIntV(src, q10, 11, d0) : old(st.Weight))
+//@   ensures [C04] (ok12 && err == nil) ==> st.WeightType == (k12 == 0 ? decIntV(src, q11, 12, d0) : old(st.WeightType))
+//@   ensures [C04] (ok13 && err == nil) ==> st.AuthType == (k13 == 0 ? decIntV(src, q12, 13, d0) : old(st.AuthType))
+//@   ensures [C04] ok13 ==> (err == nil && readBuf.buf.i == q13)
 //@   safety [C05]
 //
 //@ func (*EndpointF).ReadBlock
